@@ -52,8 +52,14 @@ func VerifC05Partition() {
 		return next, rw
 	}
 
-	n1, _ := ask(s1, nil, false)
+	// the client that fills the cache may have sent its own subnet option
+	var firstECS *dnsmsg.ECS
+	if verifChoice(2) == 1 {
+		firstECS = &dnsmsg.ECS{Subnet: netip.MustParsePrefix("192.0.2.0/24"), Scope: 0}
+	}
+	n1, rw1 := ask(s1, firstECS, firstECS != nil)
 	verifAssert("first-request-goes-upstream", n1.calls == 1)
+	verifEcho(rw1.resp, firstECS)
 	dependent := scope != 0
 	if dependent {
 		verifAssert("scoped-answer-stored-in-subnet-cache-only", ecs.sets == 1 && noECS.sets == 0)
@@ -64,12 +70,13 @@ func VerifC05Partition() {
 
 	switch verifChoice(3) {
 	case 0: // a second plain client
-		n2, _ := ask(s2, nil, false)
+		n2, rw2 := ask(s2, nil, false)
 		if dependent {
 			verifAssert("scoped-answer-reused-only-for-the-same-subnet", (n2.calls == 0) == (s2 == s1))
 		} else {
 			verifAssert("unscoped-answer-reused-for-everyone", n2.calls == 0)
 		}
+		verifEcho(rw2.resp, nil)
 		if n2.calls == 0 {
 			verifReach("hit")
 		} else {
@@ -77,18 +84,35 @@ func VerifC05Partition() {
 		}
 	case 1: // a client with its own ECS option: still mapped through GeoIP
 		own := &dnsmsg.ECS{Subnet: netip.MustParsePrefix("203.0.113.0/24"), Scope: 0}
-		n2, _ := ask(s2, own, true)
+		n2, rw2 := ask(s2, own, true)
 		if dependent {
 			verifAssert("scoped-answer-reused-only-for-the-same-subnet", (n2.calls == 0) == (s2 == s1))
 		}
+		verifEcho(rw2.resp, own)
 	case 2: // a client that opted out
 		declined := &dnsmsg.ECS{Subnet: netip.PrefixFrom(netip.IPv4Unspecified(), 0), Scope: 0}
-		n2, _ := ask(s2, declined, true)
+		n2, rw2 := ask(s2, declined, true)
+		verifEcho(rw2.resp, declined)
 		if dependent {
 			verifAssert("opted-out-client-never-served-from-subnet-cache", n2.calls == 1)
 			subs := verifSubnetOpts(n2.req)
 			verifAssert("opted-out-client-gets-zero-prefix-upstream", len(subs) == 1 && subs[0].SourceNetmask == 0 && subs[0].Address.Equal(netip.IPv4Unspecified().AsSlice()))
 		}
 		verifReach("declined")
+	}
+}
+
+// verifEcho: a response carries a client-subnet option exactly when its own query did,
+// and then it is the querier's own prefix with the scope set to the source length.
+func verifEcho(resp *dns.Msg, sent *dnsmsg.ECS) {
+	subs := verifSubnetOpts(resp)
+	if sent == nil {
+		verifAssert("no-subnet-option-in-the-response-to-a-query-without-one", len(subs) == 0)
+		return
+	}
+	verifAssert("own-subnet-echoed-once", len(subs) == 1)
+	if len(subs) == 1 {
+		bits := sent.Subnet.Bits()
+		verifAssert("echo-is-the-querier's-own-prefix", int(subs[0].SourceNetmask) == bits && int(subs[0].SourceScope) == bits && subs[0].Address.Equal(sent.Subnet.Addr().AsSlice()))
 	}
 }
